@@ -12,11 +12,10 @@ from harness.props.c02 import coq_piece, coq_impl
 
 IMPORTS = "From Ford Require Import Base.Str Lex.Quote Lex.Reader Lex.ReaderSpec Lex.Fixed Corr.C02 Corr.C14."
 THEOREMS = ["C14_fixed_as_free", "C14_fixed_statements", "C14_std_equivalent", "C14_partial",
-            "C14_refuted_literal_split", "C14_refuted_indented_comment"]
-# the open findings: a character literal continued across lines; a comment line whose '!' stands in column 7 or
-# beyond between a line and its continuation line
-REGIONS = {"literal_split": 1, "indented_comment": 2}
-KEYS = {1: "literal-continued-across-lines", 2: "indented-comment-before-continuation"}
+            "C14_refuted_literal_split"]
+# the one open finding: a character literal continued across lines
+REGIONS = {"literal_split": 1}
+KEYS = {1: "literal-continued-across-lines"}
 RAW_POOL = ["      x = 1", "     1   + 2", "C comment", "c", "*", "! x", "  ! y", "#if A", "", "     ", "      ",
             "   10 continue", "10    y = 2", "      z = 'abc", "     &def'", "      a = 1 ! c", "     +  + b",
             "!$omp parallel", "c$omp do", "C$OMPX", "\t x = 1", "     0 w = 3", "12345 v = 4",
@@ -81,7 +80,7 @@ def run(chk):
                                                         "lines": lines, "impl": out}, False)
         # B. generated fixed-form statements through converter + reader; statements must equal the tokens'
         fcases = []
-        hits = {1: 0, 2: 0}
+        hits = {1: 0}
         shape_counts = {}
         # fixed regression inputs first (former witnesses of repaired defects): no region, judged like any other
         corpus = json.load(open(core.VERIF / "corpus" / "C14" / "regressions.json"))["cases"]
@@ -130,8 +129,6 @@ def run(chk):
         # the known finding still present?  (by the standard the literal is ab, 59 blanks up to column 72, cd)
         r = run_reader(["      s = 'ab", "     &cd'"], fixed=True, workdir=work)
         chk.known("literal-continued-across-lines", r != ("ok", ["s = 'ab" + " " * 59 + "cd'"]))
-        r = run_reader(["      x = 1", "      ! note", "     &  + 2"], fixed=True, workdir=work)
-        chk.known("indented-comment-before-continuation", r != ("ok", ["x = 1 + 2"]))
     finally:
         shutil.rmtree(work, ignore_errors=True)
 
